@@ -42,7 +42,9 @@ BUDGET = {"quick": 25, "thorough": 420}
 CHUNK = 2
 ENUMERATED = {"quick": True, "thorough": True}
 CASE_WALL = {"quick": 60, "thorough": 300}
-RULE = ("case = explicit op list (cred / attest / recred / blob / reopen / read on up to 2 pseudonyms, 2 authorities, "
+RULE = ("case = explicit op list (cred / attest / recred / blob / reopen / read, and batch = inserts inside a `with database:` "
+        "block that ends normally, by an application error handled by the caller, or by IgnoreCommits; inserts inside a block "
+        "count as returned only once the block was left normally; on up to 2 pseudonyms, 2 authorities, "
         "1 wallet db; sizes from 0 to 40 kB so rows spill to overflow pages) + a selection of crash points. Crash point = "
         "before every SQL statement seen by sqlite's trace hook (every statement of the schema script that runs on every "
         "open, implicit BEGIN/COMMIT), after every commit(), after every close(), after every insert call, end of "
@@ -74,6 +76,7 @@ ASSUMPTIONS = ["process death only (SIGKILL / crash): everything written with wr
 REACH = ["crash_points", "crash_inside_schema_script", "crash_between_insert_and_commit", "crash_after_ack",
          "crash_after_commit", "crash_after_close", "wal_present_at_crash", "shm_present_at_crash", "reopen_cycles",
          "second_crash_during_recovery", "inflight_record_visible", "inflight_record_absent", "overflow_row",
+         "batch_committed", "batch_left_by_error", "batch_left_by_ignorecommits",
          "crash_before_first_page_written"]
 SHRINK_FIELDS = ("ops",)
 
@@ -88,6 +91,10 @@ N_SEEDED = {"quick": 60, "thorough": 2000}
 
 class HarnessProblem(Exception):
     """The harness (not the code under test) misbehaved."""
+
+
+class _BatchAbort(Exception):
+    """The application error that ends a ``with database:`` block in a "batch" op with end == "error"."""
 
 
 # =========================================================================== crash-point recorder + sqlite3 proxy
@@ -276,7 +283,18 @@ def _bytes(label: str, n: int) -> bytes:
     return out[:n]
 
 
+def _flat(ops: list) -> list:
+    out = []
+    for o in ops:
+        out.append(o)
+        if o.get("op") == "batch":
+            out.extend(o.get("inner", []))
+    return out
+
+
 def _uses(ops: list) -> tuple[bool, bool]:
+    ops = _flat(ops)
+    ops = ops + [{"op": "read", "db": o.get("db")} for o in ops if o.get("op") == "batch"]
     uid = any(o.get("op") in ("cred", "attest", "recred") or (o.get("op") in ("reopen", "read") and o.get("db") == "id")
               for o in ops)
     uw = any(o.get("op") == "blob" or (o.get("op") in ("reopen", "read") and o.get("db") == "wallet") for o in ops)
@@ -302,6 +320,9 @@ class _Runner:
         self.on_ack = None
         self.reopens = 0
         self.overflow = 0
+        self.batch_kind = None        # "identity" | "wallet" while inside a ``with database:`` block of that database
+        self.deferred: list = []      # (seq, table, kind) of inserts that returned inside the current block
+        self.batches = {"ok": 0, "error": 0, "ignore": 0}
 
     def context(self) -> dict:
         return {"op": self.cur_op, "opk": self.cur_kind, "na": len(self.acked), "no": len(self.records)}
@@ -315,6 +336,11 @@ class _Runner:
             if any(isinstance(v, bytes) and len(v) > 8000 for v in row):
                 self.overflow += 1
             orig(*args)
+            if self.batch_kind == kind:
+                # inside ``with database:`` commits are deferred by design: the insert counts as returned-and-durable only
+                # once the block has been left normally
+                self.deferred.append((seq, table, kind))
+                return
             self.acked.append(seq)
             if self.on_ack is not None:
                 self.on_ack(seq, table, kind)
@@ -406,6 +432,43 @@ class _Runner:
             self.wallet.insert_attestation(_StubAttestation(_bytes(f"blob/{bid}", int(op.get("size", 100)))),
                                            hashlib.sha1(f"blob/{bid}".encode()).digest(),  # noqa: S324
                                            _StubSecretKey(_bytes(f"sk/{bid}", int(op.get("ksize", 300)))), "id_metadata")
+        elif kind == "batch":
+            # the library's batching API: ``with database:`` defers the commits of the inserts made inside the block.
+            # end "ok": block left normally (one commit); "error": an application error leaves the block and is handled by the
+            # caller, who carries on; "ignore": the block is left with IgnoreCommits (no commit now)
+            from ipv8.database import IgnoreCommits
+            if op.get("db") == "wallet":
+                if self.wallet is None:
+                    self.open_wallet()
+                dbo, bk = self.wallet, "wallet"
+            else:
+                if self.mgr is None:
+                    self.open_id()
+                dbo, bk = self.mgr.database, "identity"
+            end = op.get("end", "ok")
+            self.batch_kind, self.deferred = bk, []
+            try:
+                with dbo:
+                    for inner in op.get("inner", []):
+                        if inner.get("op") in ("cred", "attest", "recred", "blob"):
+                            self.run_op(i, inner)
+                    self.cur_kind = "batch"
+                    if end == "error":
+                        raise _BatchAbort
+                    if end == "ignore":
+                        raise IgnoreCommits
+            except _BatchAbort:
+                pass
+            finally:
+                self.batch_kind = None
+                self.cur_kind = "batch"
+            self.batches[end] = self.batches.get(end, 0) + 1
+            if end == "ok":
+                for seq, table, k in self.deferred:
+                    self.acked.append(seq)
+                    if self.on_ack is not None:
+                        self.on_ack(seq, table, k)
+            self.deferred = []
         elif kind == "reopen":
             if op.get("db") == "wallet":
                 if self.wallet is not None:
@@ -804,6 +867,9 @@ def _run_inproc(c, case: dict, tmp: str, keys: list, tag: str = "w"):  # noqa: A
         c.probe("reopen_cycles", runner.reopens)
     if runner.overflow:
         c.probe("overflow_row", runner.overflow)
+    for end, probe in (("ok", "batch_committed"), ("error", "batch_left_by_error"), ("ignore", "batch_left_by_ignorecommits")):
+        if runner.batches.get(end):
+            c.probe(probe, runner.batches[end])
     return ev, rec, runner
 
 
@@ -1122,6 +1188,14 @@ def _scripted() -> list:
                                        {"op": "blob", "id": 2, "size": 64}]),
         ("forked_tree_big_metadata", [cred(1), cred(2, 1), cred(3, 1), cred(4, 3, 0, 9000), cred(5, 2, 0, 0, 17000),
                                       {"op": "attest", "p": 0, "cred": 4, "auth": 0}]),
+        ("batches", [cred(1), {"op": "batch", "db": "id", "end": "ok", "inner": [cred(2, 1), {"op": "attest", "p": 0, "cred": 1, "auth": 0}]},
+                     {"op": "batch", "db": "id", "end": "error", "inner": [cred(3, 2)]}, cred(4, 2),
+                     {"op": "attest", "p": 0, "cred": 4, "auth": 1},
+                     {"op": "batch", "db": "wallet", "end": "error", "inner": [{"op": "blob", "id": 1, "size": 500}]},
+                     {"op": "blob", "id": 2, "size": 700},
+                     {"op": "batch", "db": "id", "end": "ignore", "inner": [cred(5, 4)]}, cred(6, 4),
+                     {"op": "batch", "db": "wallet", "end": "ok", "inner": [{"op": "blob", "id": 3, "size": 90}, {"op": "blob", "id": 4, "size": 9000}]},
+                     {"op": "read", "db": "id"}]),
         ("reopen_storm", [cred(1), {"op": "reopen", "db": "id"}, {"op": "reopen", "db": "id"}, cred(2, 1),
                           {"op": "reopen", "db": "id"}, {"op": "read", "db": "id"}, {"op": "blob", "id": 1, "size": 10},
                           {"op": "reopen", "db": "wallet"}, {"op": "reopen", "db": "wallet"}]),
@@ -1166,6 +1240,19 @@ def _random_case(seed: int) -> dict:
             ops.append({"op": kind, "db": rng.choice(["id", "id", "wallet"])})
     if not ops:
         ops.append({"op": "cred", "p": 0, "id": 1, "after": None, "msize": 0, "csize": 0})
+    if rng.random() < 0.4:
+        # some of the inserts are made through the batching API (``with database:``), ended normally, by an application
+        # error the caller handles, or by IgnoreCommits
+        out: list = []
+        for o in ops:
+            dbk = "wallet" if o["op"] == "blob" else "id" if o["op"] in ("cred", "attest", "recred") else None
+            if dbk is None or rng.random() >= 0.35:
+                out.append(o)
+            elif out and out[-1].get("op") == "batch" and out[-1]["db"] == dbk and len(out[-1]["inner"]) < 3 and rng.random() < 0.5:
+                out[-1]["inner"].append(o)
+            else:
+                out.append({"op": "batch", "db": dbk, "end": rng.choice(["ok", "ok", "error", "error", "ignore"]), "inner": [o]})
+        ops = out
     return {"scenario": "seeded", "seed": seed, "ops": ops, "crash": "all", "recovery": {"mod": 5, "rem": seed % 5}}
 
 
